@@ -975,11 +975,21 @@ func ruleS17_4(c *Ctx, id string) {
 	// never initialised - is the header of the write-ahead log)
 	if vi := c.fn(id, "simple.validInum"); vi != nil {
 		upper := ""
-		for _, br := range branches(vi) {
-			if br.Cond.X == nil || br.Cond.Y == nil {
-				continue
+		// (the comparison may be the condition of an if or part of a boolean expression that is returned)
+		type cmp3 struct {
+			Op   token.Token
+			X, Y ssa.Value
+		}
+		var cmps []cmp3
+		for _, b := range vi.Blocks {
+			for _, in := range b.Instrs {
+				if bo, ok := in.(*ssa.BinOp); ok {
+					cmps = append(cmps, cmp3{bo.Op, bo.X, bo.Y})
+				}
 			}
-			op, x, y := br.Cond.Op, stripConv(br.Cond.X), stripConv(br.Cond.Y)
+		}
+		for _, br := range cmps {
+			op, x, y := br.Op, stripConv(br.X), stripConv(br.Y)
 			if _, isP := y.(*ssa.Parameter); isP {
 				op, x, y = flipOp(op), y, x
 			}
